@@ -25,7 +25,7 @@ func init() {
 			"O1 every bounds check the Go compiler's prove pass could NOT eliminate (go build -gcflags=-d=ssa/check_bce/debug=1; sites it proved are discharged by the compiler) is discharged by a generic rule — constant bounds under a dominating len guard (G5), x[:f] under a len(x) ≥ f guard on the same field load with f non-negative (G2), cursor loops b[n:] under n < len(b) with a non-negative cursor (G1), buffers extended by the count a full read returned (Gread), bytes.Buffer invariants (G4), pooled header scratch (G7), non-empty results/arguments (G8/G9), writes into buffers allocated with Len() at every library call site (S) — or by a reviewed exemption naming the function and operand; anything else is a violation; " +
 			"O2 every type assertion without comma-ok is dominated by a Type()==K test on the same value with K's only implementor being the asserted type (or is a homogeneous pool / registered-decoder result); " +
 			"O3 every allocation in a decode function whose size derives from wire data is bounded by a constant or by data already received (min idiom), and every unsigned subtraction of wire lengths is dominated by a guard excluding wrap-around; " +
-			"O4 every call-graph cycle among decode functions carries an integer depth parameter that is compared with a constant (error return) and passed on increased; cycles among inspection functions recurse only into children of the current AVP. " +
+			"O4 every call-graph cycle among decode functions carries an integer depth parameter that is compared with a constant (error return) and passed on increased; cycles among inspection functions recurse only into children of the current AVP; no formatting call in a function of a decode cycle takes both an error returned by a call of the cycle and a byte slice (an error wrapped with a rendering of each level's bytes grows depth x size). " +
 			"Further O1 discharge rules, each a local argument over the SSA: Gparam (every library caller passes a slice whose length is a known constant), Gsym (index and limit are affine forms of the wire Length and the input length that the dominating guards order), Gwrite/Gbuf (offsets into a buffer sized by the same Len() sum), the same rules applied in the caller's frame for residue sites inside functions the compiler inlined, and clamp helpers (min-style functions) for O3. " +
 			"Not decided: panics inside reflect for arbitrary struct types, nil dereferences beyond (value,error) contracts, quantitative memory beyond 'no allocation sized by an unchecked wire value', actual stack sizes.",
 		Rules: map[string]string{
@@ -2103,6 +2103,7 @@ func (x *c03) recursion() {
 				r.Ok("O4", key, c.fpos(comp[0]), how)
 				continue
 			}
+			x.errorsStaySmall(comp, set, key)
 			how, why := x.depthBounded(comp, set)
 			if how != "" {
 				r.Ok("O4", key, c.fpos(comp[0]), how)
@@ -2206,6 +2207,99 @@ func (x *c03) depthBounded(comp []*ssa.Function, set map[*ssa.Function]bool) (st
 		return "", "the depth value is never increased around the cycle"
 	}
 	return "depth parameter threaded through the cycle, increased at least once per round; " + guarded, ""
+}
+
+// errorsStaySmall: memory clause of the recursion. An error that travels up a decode cycle is re-wrapped at
+// every level; if a level's wrap also renders that level's wire bytes, the text grows by the size of each
+// enclosing group — depth x size instead of a small multiple of the input. No formatting call in a function of the
+// cycle may take both an error obtained from a call of the cycle and a byte slice.
+func (x *c03) errorsStaySmall(comp []*ssa.Function, set map[*ssa.Function]bool, cycle string) {
+	r, c := x.c.R, x.c
+	n := 0
+	for _, f := range comp {
+		cycErr := map[ssa.Value]bool{}
+		for _, ci := range flow.CallInstrs(f) {
+			call, ok := ci.(*ssa.Call)
+			if !ok {
+				continue
+			}
+			if g := flow.StaticCallee(call); g != nil && set[g] {
+				if e := errorResult(call); e != nil {
+					cycErr[e] = true
+				}
+			}
+		}
+		if len(cycErr) == 0 {
+			continue
+		}
+		for _, ci := range flow.CallInstrs(f) {
+			o := flow.CalleeObj(ci)
+			if o == nil || o.Pkg() == nil || o.Pkg().Path() != "fmt" {
+				continue
+			}
+			hasErr, hasBytes := false, ""
+			for _, a := range variadicElems(ci) {
+				if mi, ok := a.(*ssa.MakeInterface); ok {
+					a = mi.X
+				}
+				if ct, ok := a.(*ssa.ChangeInterface); ok {
+					a = ct.X
+				}
+				for _, src := range flow.SpillSources(a) {
+					if cycErr[src] {
+						hasErr = true
+					}
+				}
+				if ph, ok := a.(*ssa.Phi); ok {
+					for _, e := range ph.Edges {
+						if cycErr[e] {
+							hasErr = true
+						}
+					}
+				}
+				if sl, ok := a.Type().Underlying().(*types.Slice); ok {
+					if b, ok := sl.Elem().Underlying().(*types.Basic); ok && b.Kind() == types.Uint8 {
+						hasBytes = short(a.String(), 40)
+					}
+				}
+			}
+			if hasErr {
+				n++
+				r.Check(hasBytes == "", "O4", fmt.Sprintf("%s:%s:wrapped-error-carries-no-wire-bytes#%d", cycle, f.Name(), n), c.pos(ci),
+					"the error of a nested decode step is wrapped without a rendering of this level's bytes",
+					"the error of a nested decode step is wrapped together with a rendering of this level's wire bytes ("+hasBytes+"): every enclosing group adds its own payload to the text, so a failing decode of a deeply nested message allocates depth x size — thousands of times the bytes supplied")
+			}
+		}
+	}
+}
+
+// variadicElems: the values stored into the variadic slice of a call (fmt.Errorf(format, a...)), plus its plain
+// arguments.
+func variadicElems(ci ssa.CallInstruction) []ssa.Value {
+	var out []ssa.Value
+	for _, a := range ci.Common().Args {
+		out = append(out, a)
+		sl, ok := a.(*ssa.Slice)
+		if !ok {
+			continue
+		}
+		al, ok := sl.X.(*ssa.Alloc)
+		if !ok {
+			continue
+		}
+		for _, ref := range flow.Referrers(al) {
+			ia, ok := ref.(*ssa.IndexAddr)
+			if !ok {
+				continue
+			}
+			for _, r2 := range flow.Referrers(ia) {
+				if st, ok := r2.(*ssa.Store); ok && st.Addr == ssa.Value(ia) {
+					out = append(out, st.Val)
+				}
+			}
+		}
+	}
+	return out
 }
 
 // depthBoundedInStruct: every function of the cycle takes, by value, a parameter of one and the same struct type
